@@ -3,7 +3,7 @@ import os
 import random
 import struct
 
-from ..core import bindings, tlc
+from ..core import bindings, cmds, tlc
 from ..core.lib import mod
 from ..core.runner import main
 from ..core.values import flatten, num
@@ -142,10 +142,11 @@ def composed(chk, fs):
     real SCSI facade over SCSIDevice (tmpfs node, stand-in sgio, live target) and the caller-visible outcome of every
     step is compared with what the specification recorded"""
     ev = chk.ev
-    r = tlc.run("Initiator", "MC_Initiator.cfg", workers=16, timeout=600, name="c12init")
+    icfg = "MC_Initiator_quick.cfg" if chk.quick else "MC_Initiator.cfg"
+    r = tlc.run("Initiator", icfg, workers=16, timeout=1200, name="c12init")
     if not r.ok:
         raise tlc.TLCFailure("Initiator.tla violated %s\n%s" % (r.violated, r.counterexample[:1500]))
-    ev.tlc("Initiator/MC_Initiator.cfg (exhaustive, 5 steps)", r)
+    ev.tlc("Initiator/%s (exhaustive, %d steps)" % (icfg, 4 if chk.quick else 5), r)
     short = [v for t, v in r.prints if t == "BEHAVIOUR"]
     rng = random.Random(chk.seed)
     behaviours = rng.sample(short, min(len(short), 300 if chk.quick else 20000))
@@ -182,7 +183,7 @@ def composed(chk, fs):
             def target(cdb, dataout, datain, live=live, st=st):
                 if st["fault"] is not None:
                     f, st["fault"] = st["fault"], None
-                    return (2, sense) if f == "cc" else (8, None)
+                    return (2, sense) if f == 2 else (f, None)
                 return live(cdb, dataout, datain)
             fs.reset(target)
             fi_.reset(target)
@@ -191,6 +192,7 @@ def composed(chk, fs):
             else:
                 dev = sd.SCSIDevice(path, readwrite=True, detect_replugged=bool(b["detect"]))
             facade = SCSI(dev, 1)
+            rd = None           # the caller's one long-lived read command
             for i, s_ in enumerate(b["steps"]):
                 a = s_["act"]
                 out, data = "ok", 0
@@ -199,6 +201,12 @@ def composed(chk, fs):
                         facade.write10(s_["lba"], 1, bytearray([s_["val"]]))
                     elif a == "read":
                         data = facade.read10(s_["lba"], 1).datain[0]
+                    elif a == "reread":
+                        if rd is None:
+                            rd = cmds.klass("Read10")(dev.opcodes.READ_10, 1, 1 - s_["lba"], 1)
+                        rd.cdb = rd.build_cdb(opcode=rd.opcode.value, lba=s_["lba"], tl=1)
+                        facade.execute(rd)
+                        data = rd.datain[0]
                     elif a == "reattach":
                         facade(dev)
                     elif a == "replug":
@@ -207,14 +215,12 @@ def composed(chk, fs):
                         os.unlink(path)
                     elif a == "plug":
                         new_node()
-                    elif a == "arm_cc":
-                        st["fault"] = "cc"
-                    elif a == "arm_busy":
-                        st["fault"] = "busy"
+                    elif a == "arm":
+                        st["fault"] = s_["val"]
                 except Exception as ex:
                     out = type(ex).__name__
                 steps += 1
-                if out != s_["out"] or (a == "read" and out == "ok" and data != s_["data"]):
+                if out != s_["out"] or (a in ("read", "reread") and out == "ok" and data != s_["data"]):
                     chk.violation({"clause": "ComposedBehaviour", "cls": "", "field": "", "method": a, "tr": "sgio",
                                    "detail": {"step": i, "expected": s_, "observed": {"out": out, "data": data}, "transport": b.get("tr"),
                                               "behaviour": b["steps"][:i + 1], "detect": b["detect"]},
